@@ -49,7 +49,8 @@ def catalogue(K, thorough=False):
             S.GRPPAR(K, horizon=hg), S.SCHED_BLOCK(K),
             S.GRP_BLOCKED(K), S.GRPBATCH(K), S.EMPTYBATCH(K), S.TWOSRC(K), S.GATE_NONE(K), S.DELAY01_LONG(0),
             S.MAINT2_SCRIPT(K), S.GRPIN(K), S.RES3(K), S.BLOCKED_OUT_SCRIPT(K), S.BUFGATE(K),
-            S.BATCH_DIRECT(K, pattern=(2, 2, None), size=3, cap=3, sink_cycle=2)]
+            S.BATCH_DIRECT(K, pattern=(2, 2, None), size=3, cap=3, sink_cycle=2),
+            S.BATCH(K, size=2, cap=6, sink_cycle=2)]
     return rows
 
 
@@ -159,7 +160,8 @@ def buffer_scenarios(K, thorough):
             S.MAINT(K), S.RES_SER(K), S.DELAY01(K), S.BUFBATCH(K), S.BUFBATCH(K, pattern=(3, 2), cap=4, size=2),
             S.FANOUT_DELAY(K), S.BATCH(K, size=2, cap=3, sink_cycle=2), S.BATCH_DIRECT(K, cap=3, sink_cycle=1),
             S.TWOSRC(K), S.TWOSRC(K, eps=1e-9, delay=1, horizon=4), S.DELAY01_LONG(0), S.EMPTYBATCH(K),
-            S.BUFBATCH(K, pattern=(3, 3, None), cap=5, size=None, sink_cycle=2), S.BUFGATE(K), S.EMPTYBATCH_SCRIPT(K)]
+            S.BUFBATCH(K, pattern=(3, 3, None), cap=5, size=None, sink_cycle=2), S.BUFGATE(K), S.EMPTYBATCH_SCRIPT(K),
+            S.BATCH(K, size=2, cap=6, sink_cycle=2)]
     return rows
 
 
@@ -339,7 +341,9 @@ class C17(Check):
         for pat in [(None, 2), (0, 2, None), (None, 0, 3), (3, 1), (2, 2, None), (3, 0, None), (0, 3, 2)]:
             for size in (None, 2, 3):
                 specs.append(S.BATCH_DIRECT(K, pattern=pat, size=size, cap=4 if size else None, sink_cycle=1 if size else 0))
-        specs += [S.BUFBATCH(K), S.BUFBATCH(K, pattern=(3, 2), cap=4, size=2), S.BATCHGATE(K), S.GRPBATCH(K), S.EMPTYBATCH(K)]
+        specs += [S.BUFBATCH(K), S.BUFBATCH(K, pattern=(3, 2), cap=4, size=2), S.BATCHGATE(K), S.GRPBATCH(K), S.EMPTYBATCH(K),
+                  S.BATCH(K, size=2, cap=6, sink_cycle=2), S.BUFBATCH(K, pattern=(3, 3, None), cap=5, size=None, sink_cycle=2),
+                  S.EMPTYBATCH_SCRIPT(K)]
         return _line_jobs(specs, ['batching', 'census', 'route'], tier) + \
             topo_jobs(['batching', 'census', 'route'], tier, kinds=('batcher',))
 
